@@ -260,8 +260,8 @@ namespace hs
             if (has(sut, "ll."))
                 sut = pick(r, POOLS);
         }
-        else if (profile == "LL") // C17 part: low level only
-            sut = pick(r, LOWS);
+        else if (profile == "C17") // half: low-level allocators with fence corruption; half: fill patterns anywhere
+            sut = r.chance(1, 2) ? pick(r, LOWS) : any_user();
         else
             sut = any_user();
         p.set("sut", sut);
@@ -325,7 +325,7 @@ namespace hs
         unsigned w_an = 40, w_aa = arrays ? (r.chance(1, 4) ? 0u : 14u) : 0u, w_fr = 34, w_frall = 2,
                  w_top = 0, w_unw = 0, w_next = 0, w_shrink = 0, w_mv = 0, w_mva = 0, w_swp = 0,
                  w_mk2 = 0, w_ds = 0, w_dhusk = 0, w_over = 1, w_cap = 0, w_cycle = 0, w_rsv = 0,
-                 w_tdf = 0;
+                 w_tdf = 0, w_cor = 0;
         if (is_stack)
         {
             w_top    = 12;
@@ -382,6 +382,12 @@ namespace hs
         }
         if (profile == "C03" || profile == "C18")
             w_over = 5;
+        if (profile == "C17" && is_ll)
+        {
+            w_cor = 14;
+            if (r.chance(1, 10))
+                p.add("corsweep", {0, (long long)r.below(6), (long long)r.below(2)});
+        }
         if (profile == "C06")
         {
             w_top = 14;
@@ -435,7 +441,8 @@ namespace hs
                             w_cap,
                             w_cycle,
                             w_rsv,
-                            have2 ? w_tdf : 0};
+                            have2 ? w_tdf : 0,
+                            w_cor};
             auto fam = (long long)r.weighted(fam_w, 3);
             switch (r.weighted(w, sizeof w / sizeof *w))
             {
@@ -519,6 +526,10 @@ namespace hs
                 break;
             case 18:
                 p.add("tdf", {(long long)r.below(1000)});
+                break;
+            case 19:
+                p.add("cor", {r.chance(1, 2) ? (long long)(live ? live - 1 : 0) : (long long)r.below(1000),
+                              (long long)r.below(2), (long long)r.size_biased(0, 4095), (long long)r.below(256)});
                 break;
             }
         }
